@@ -1,9 +1,14 @@
 package props
 
 import (
+	"bytes"
+	"context"
 	"fmt"
+	"github.com/fullstorydev/grpchan/httpgrpc"
 	"google.golang.org/protobuf/proto"
 	"math/rand"
+	"net/http/httptest"
+	"strings"
 
 	tpb "github.com/fullstorydev/grpchan/grpchantesting"
 	"google.golang.org/grpc"
@@ -112,6 +117,47 @@ func checkC08(e *core.Env) {
 		out := run.ClientOutcome()
 		if out.Seen && out.OK {
 			e.Violate("inproc/unary/nil-response-success", "unary handler returned neither response nor error, client reported success", witness(run))
+		}
+	})
+
+	// the same over HTTP: through the channel, and as seen by a plain HTTP caller of either content type when
+	// the server side (here a server-level interceptor) produces an untyped nil response and no error
+	e.Cases("nil-unary-http", e.N(12, 60), func(i int, r *rand.Rand) {
+		for _, c := range cs.list {
+			if !c.HTTP {
+				continue
+			}
+			sc := &Script{Kind: Unary, UnaryReq: genMsg(r, "nilresp", false), Resp: nil}
+			run, ok, _ := execScript(c, sc, nil)
+			if !ok {
+				e.Inconclusive("C08 nil-unary-http: watchdog")
+				continue
+			}
+			e.Eval("nil-unary-http|channel|"+c.Name, true)
+			if out := run.ClientOutcome(); out.Seen && out.OK {
+				e.Violate(c.Name+"/unary/nil-response-success", "unary handler returned neither response nor error, client reported success", witness(run))
+			}
+		}
+		nilInt := func(ctx context.Context, req interface{}, _ *grpc.UnaryServerInfo, _ grpc.UnaryHandler) (interface{}, error) {
+			return nil, nil
+		}
+		srv := httpgrpc.NewServer(httpgrpc.WithServerUnaryInterceptor(nilInt))
+		srv.RegisterService(&ScriptedDesc, &Service{})
+		for _, ct := range []string{httpgrpc.UnaryRpcContentType_V1, "application/json"} {
+			body := []byte{}
+			if ct == "application/json" {
+				body = []byte("{}")
+			}
+			hr := httptest.NewRequest("POST", Unary.Method(), bytes.NewReader(body))
+			hr.Header.Set("Content-Type", ct)
+			rec := httptest.NewRecorder()
+			pan := guard(func() { srv.ServeHTTP(rec, hr) })
+			e.Eval("nil-unary-http|direct|"+ct, true)
+			// a panic here means net/http drops the connection: an error for the caller, which is all that is asked
+			gs := rec.Header().Get("X-GRPC-Status")
+			if pan == "" && rec.Code == 200 && (gs == "" || strings.HasPrefix(gs, "0:")) {
+				e.Violate("http-direct/unary/nil-response-success", fmt.Sprintf("the server side produced no response and no error for a %s request; the reply is HTTP 200 with body %q", ct, trunc(rec.Body.String(), 80)), nil)
+			}
 		}
 	})
 
